@@ -1,23 +1,25 @@
-"""Per-property configuration of bin/check.
+"""Per-property configuration of bin/check: one file per property in bin/propdefs.d/<ID>.py defining SPEC.
 
-props      : the pinned-statement file (coq/), only Theorem ... exact ... Print Assumptions
-run_files  : executable runner files the model shards import
-bin        : harness binary (harness/src/bin/<bin>.rs)
-allow_axioms: axioms (stdlib-declared only) the property's theorems may depend on
+SPEC keys
+  props        : the pinned-statement file under coq/ (only Require, Theorem .. Proof. exact <lemma>. Qed., Print Assumptions)
+  run_files    : executable runner .v files the model shards import (built together with props)
+  bin          : harness binary name (harness/src/bin/<bin>.rs)
+  allow_axioms : stdlib-declared axioms the property's theorems may depend on (exact names as Print Assumptions prints them)
+  level        : MANIFEST level_claimed.category (default "proof")
+  level_text, level_note, technique (optional), explanation, assumptions, trusted (extra trusted-base lines)
+  args         : extra --key value arguments for the harness binary
+  coq_timeout, run_timeout : seconds
 """
-PROPS = {
-    "C21": dict(
-        props="theories/Props/C21.v",
-        run_files=["theories/Run/C21Run.v"],
-        bin="c21",
-        allow_axioms=[],
-        level_text="Proof: ten theorems over the SqlValue model quantify over all values (reflexive/symmetric/transitive equality, antisymmetric/transitive/total cmp, cmp=Equal iff == outside the one listed interval class, equal values hash to the same byte sequence). The model is tied to the code on every run: type tags and discriminant order are re-extracted from the Rust source, and ~270k ordered pairs (all pairs of a boundary set plus random sets) are evaluated on the real trait impls and on the model inside Coq; the laws are also asserted directly on the implementation's answers.",
-        level_note="Trusted: Coq kernel; the hand transcription of comparison.rs/hash.rs/temporal impls into Value/SqlValue.v (validated by the pair matrix, sampled not exhaustive); f32/f64 modelled by bit pattern with a sign/magnitude key; recording Hasher captures bytes written; Interval fields read via Debug.",
-        explanation="Theorems over the SqlValue model (all values, no bound); tie = every ordered pair of a boundary set and of random sets: (==, partial_cmp, cmp, hash bytes) of the real trait impls vs the model inside Coq; the laws themselves are also asserted on the implementation's answers.",
-        assumptions=["f_key (sign/magnitude key on the bit pattern) orders non-NaN IEEE floats as f32/f64 partial_cmp does (validated on every run by the pair matrix)",
-                     "Interval's private fields are read from its derived Debug output"],
-    ),
-}
+import glob
+import os
+
+PROPS = {}
+_here = os.path.dirname(os.path.abspath(__file__))
+for _p in sorted(glob.glob(os.path.join(_here, "propdefs.d", "*.py"))):
+    _ns = {}
+    with open(_p) as _f:
+        exec(compile(_f.read(), _p, "exec"), _ns)
+    PROPS[os.path.basename(_p)[:-3]] = _ns["SPEC"]
 
 # properties not claimed, with the reason (everything not in PROPS and not listed here gets the default text)
 NOT_CLAIMED = {}
